@@ -139,6 +139,9 @@ def _parse_sample(text):
         value, timestamp, exemplar = _parse_remaining_text(remaining_text)
         return Sample(name, {}, value, timestamp, exemplar)
     name = text[:label_start]
+    if name and not _is_valid_legacy_metric_name(name):
+        # e.g. a name padded with spaces: it would be recorded verbatim and could not be exposed again.
+        raise ValueError("invalid metric name:" + text)
     label_end = _next_unquoted_char(text, '}')
     labels = parse_labels(text[label_start + 1:label_end], True)
     if not name:
